@@ -137,6 +137,12 @@ func TestSelf(t *testing.T) {
 	if len(o.Violations) > 0 || o.Desc.(map[string]any)["died"] != true || !o.Nontrivial {
 		selfFail(t, "killed in-place extract: %+v %v", o.Desc, o.Violations)
 	}
+	// ---- extract with the other digest: the world the harness builds is accepted by `desync --digest sha256`
+	sc2 := ExtractCase{Chunks: ec.Chunks, Layout: ec.Layout, N: 2, K: 0, Prior: "absent", Digest: "sha256"}
+	o = runExtract(sc2)
+	if len(o.Violations) > 0 || o.Desc.(map[string]any)["died"] != false || o.Desc.(map[string]any)["requests"].(int) < 2 {
+		selfFail(t, "undisturbed sha256 extract through the harness server: %+v %v %v", o.Desc, o.Violations, o.Observed)
+	}
 	// ---- extract under strace: reading of a log with interleaved threads
 	dest := "/w/out/blob"
 	lg := "7 openat(AT_FDCWD, \"/w/out/.blob.123\", O_RDWR|O_CREAT|O_EXCL|O_CLOEXEC, 0644) = 6\n" +
